@@ -27,20 +27,34 @@ type chanWait struct {
 	ptr    unsafe.Pointer // recv: where a sender stores the value; send: where the value to send lives
 }
 
+//go:norace
 func chanKey[T any](ch chan T) unsafe.Pointer { return *(*unsafe.Pointer)(unsafe.Pointer(&ch)) }
 
+//go:norace
+func (w *World) closedHas(key unsafe.Pointer) bool {
+	for _, k := range w.closed {
+		if k == key {
+			return true
+		}
+	}
+	return false
+}
+
+//go:norace
 func (w *World) isClosed(cw *chanWait) bool {
-	if _, ok := w.closed[cw.key]; ok {
+	if w.closedHas(cw.key) {
 		return true
 	}
 	if cw.probe != nil && cw.length() == 0 && cw.probe() {
-		w.closed[cw.key] = struct{}{}
+		w.closed = append(w.closed, cw.key)
 		return true
 	}
 	return false
 }
 
 // partner finds a parked thread (other than t) with a pending operation in direction dir on channel key.
+//
+//go:norace
 func (w *World) partners(t *Thread, dir chanDir, key unsafe.Pointer) (out []*Thread, idx []int) {
 	for _, o := range w.threads {
 		if o == t || o.done || o.completed >= 0 {
@@ -57,6 +71,7 @@ func (w *World) partners(t *Thread, dir chanDir, key unsafe.Pointer) (out []*Thr
 	return
 }
 
+//go:norace
 func (w *World) waitReady(t *Thread, cw *chanWait) bool {
 	if cw.key == nil {
 		return false // nil channel: blocks forever
@@ -81,6 +96,7 @@ func (w *World) waitReady(t *Thread, cw *chanWait) bool {
 	return len(p) > 0
 }
 
+//go:norace
 func (w *World) anyWaitReady(t *Thread) bool {
 	for i := range t.waits {
 		if w.waitReady(t, &t.waits[i]) {
@@ -90,12 +106,15 @@ func (w *World) anyWaitReady(t *Thread) bool {
 	return false
 }
 
+//go:norace
 func recvWait[T any](ch chan T, slot *T) chanWait {
 	if ch == nil {
 		return chanWait{dir: dirRecv}
 	}
 	return chanWait{key: chanKey(ch), dir: dirRecv, cap: cap(ch), length: func() int { return len(ch) },
 		probe: func() bool {
+			raceDisable()
+			defer raceEnable()
 			select {
 			case _, ok := <-ch:
 				return !ok
@@ -105,6 +124,7 @@ func recvWait[T any](ch chan T, slot *T) chanWait {
 		}, ptr: unsafe.Pointer(slot)}
 }
 
+//go:norace
 func sendWait[T any](ch chan T, val *T) chanWait {
 	if ch == nil {
 		return chanWait{dir: dirSend}
@@ -112,18 +132,22 @@ func sendWait[T any](ch chan T, val *T) chanWait {
 	return chanWait{key: chanKey(ch), dir: dirSend, cap: cap(ch), length: func() int { return len(ch) }, ptr: unsafe.Pointer(val)}
 }
 
+//go:norace
 func bidi[T any, C ~chan T | ~<-chan T | ~chan<- T](ch C) chan T {
 	return *(*chan T)(unsafe.Pointer(&ch))
 }
 
 // doRecv completes a receive for the running thread t, which the scheduler chose because wait cw is ready.
+//
+//go:norace
 func doRecv[T any](w *World, t *Thread, ch chan T, cw *chanWait) (v T, ok bool) {
 	if len(ch) > 0 {
 		v, ok = <-ch
 		return
 	}
 	if w.isClosed(cw) {
-		return v, false
+		v, ok = <-ch // never blocks; performs the close -> receive synchronisation natively
+		return v, ok
 	}
 	// unbuffered rendezvous: take the value from a parked sender
 	ps, idx := w.partners(t, dirSend, cw.key)
@@ -137,9 +161,11 @@ func doRecv[T any](w *World, t *Thread, ch chan T, cw *chanWait) (v T, ok bool) 
 	p := ps[k]
 	v = *(*T)(p.waits[idx[k]].ptr)
 	p.completed = idx[k]
+	rendezvous(t, p)
 	return v, true
 }
 
+//go:norace
 func doSend[T any](w *World, t *Thread, ch chan T, cw *chanWait, v T) {
 	if w.isClosed(cw) {
 		panic("send on closed channel")
@@ -160,8 +186,10 @@ func doSend[T any](w *World, t *Thread, ch chan T, cw *chanWait, v T) {
 	*(*T)(p.waits[idx[k]].ptr) = v
 	p.completed = idx[k]
 	p.recvOK = true
+	rendezvous(t, p)
 }
 
+//go:norace
 func (w *World) choosePartner(n int, label string) int {
 	costs := make([]int8, n)
 	for i := 1; i < n; i++ {
@@ -172,13 +200,27 @@ func (w *World) choosePartner(n int, label string) int {
 
 // park announces the waits of t and parks it; on return either a partner completed one of them (t.completed >= 0) or
 // the scheduler chose t while at least one wait is ready.
+//
+//go:norace
 func (w *World) park(t *Thread, label string) {
 	t.label = label
 	t.completed = -1
+	// race builds: publish this thread's clock for the partner that may complete a rendezvous with it while it is parked
+	RaceRelease(unsafe.Pointer(&t.hbOut))
 	w.schedule()
 }
 
+// rendezvous records the two happens-before edges of an unbuffered channel operation completed by the running thread
+// me with the parked partner p: everything p did before it parked is visible to me, and everything I did before the
+// operation is visible to p when it resumes.
+func rendezvous(me, p *Thread) {
+	RaceAcquire(unsafe.Pointer(&p.hbOut))
+	RaceRelease(unsafe.Pointer(&p.hbIn))
+}
+
 // Recv2 is `v, ok := <-ch`.
+//
+//go:norace
 func Recv2[T any, C ~chan T | ~<-chan T](c C) (v T, ok bool) {
 	ch := bidi[T](c)
 	w := cur
@@ -198,18 +240,23 @@ func Recv2[T any, C ~chan T | ~<-chan T](c C) (v T, ok bool) {
 	okp := t.recvOK
 	t.waits, t.completed, t.recvOK = nil, -1, false
 	if done >= 0 {
+		RaceAcquire(unsafe.Pointer(&t.hbIn))
 		return slot, okp
 	}
 	return doRecv(w, t, ch, &ws[0])
 }
 
 // Recv is `<-ch`.
+//
+//go:norace
 func Recv[T any, C ~chan T | ~<-chan T](c C) T {
 	v, _ := Recv2[T](c)
 	return v
 }
 
 // Send is `ch <- v`.
+//
+//go:norace
 func Send[T any, C ~chan T | ~chan<- T](c C, v T) {
 	ch := *(*chan T)(unsafe.Pointer(&c))
 	w := cur
@@ -228,12 +275,15 @@ func Send[T any, C ~chan T | ~chan<- T](c C, v T) {
 	done := t.completed
 	t.waits, t.completed, t.recvOK = nil, -1, false
 	if done >= 0 {
+		RaceAcquire(unsafe.Pointer(&t.hbIn))
 		return
 	}
 	doSend(w, t, ch, &ws[0], v)
 }
 
 // Close is `close(ch)`.
+//
+//go:norace
 func Close[T any, C ~chan T | ~chan<- T](c C) {
 	ch := *(*chan T)(unsafe.Pointer(&c))
 	w := cur
@@ -249,10 +299,10 @@ func Close[T any, C ~chan T | ~chan<- T](c C) {
 		panic("close of nil channel")
 	}
 	key := chanKey(ch)
-	if _, ok := w.closed[key]; ok {
+	if w.closedHas(key) {
 		panic("close of closed channel")
 	}
-	w.closed[key] = struct{}{}
+	w.closed = append(w.closed, key)
 	close(ch) // real close: len/cap/recv on the real channel stay truthful; parked shim senders will panic when chosen
 }
 
@@ -277,24 +327,40 @@ type SendC[T any] struct {
 }
 
 // RecvCase builds the clause `case v, ok := <-ch`.
+//
+//go:norace
 func RecvCase[T any, C ~chan T | ~<-chan T](c C) *RecvC[T] { return &RecvC[T]{ch: bidi[T](c)} }
 
 // SendCase builds the clause `case ch <- v` (v is evaluated when the select statement is entered, as in Go).
+//
+//go:norace
 func SendCase[T any, C ~chan T | ~chan<- T](c C, v T) *SendC[T] {
 	return &SendC[T]{ch: *(*chan T)(unsafe.Pointer(&c)), v: v}
 }
 
+//go:norace
 func (c *RecvC[T]) wait() chanWait { return recvWait(c.ch, &c.V) }
+
+//go:norace
 func (c *RecvC[T]) perform(w *World, t *Thread, cw *chanWait) {
 	c.V, c.OK = doRecv(w, t, c.ch, cw)
 }
+
+//go:norace
 func (c *RecvC[T]) partnerDone(ok bool) { c.OK = ok }
 
-func (c *SendC[T]) wait() chanWait                            { return sendWait(c.ch, &c.v) }
+//go:norace
+func (c *SendC[T]) wait() chanWait { return sendWait(c.ch, &c.v) }
+
+//go:norace
 func (c *SendC[T]) perform(w *World, t *Thread, cw *chanWait) { doSend(w, t, c.ch, cw, c.v) }
-func (c *SendC[T]) partnerDone(bool)                          {}
+
+//go:norace
+func (c *SendC[T]) partnerDone(bool) {}
 
 // Select runs a select statement over cases and returns the index of the clause that proceeded, or -1 for default.
+//
+//go:norace
 func Select(hasDefault bool, cases ...Case) int {
 	w := cur
 	if w == nil {
@@ -321,6 +387,7 @@ func Select(hasDefault bool, cases ...Case) int {
 	okp := t.recvOK
 	t.waits, t.completed, t.recvOK = nil, -1, false
 	if done >= 0 {
+		RaceAcquire(unsafe.Pointer(&t.hbIn))
 		cases[done].partnerDone(okp)
 		return done
 	}
@@ -346,6 +413,8 @@ func Select(hasDefault bool, cases ...Case) int {
 }
 
 // BlockForever is `select {}`.
+//
+//go:norace
 func BlockForever() {
 	w := cur
 	if w == nil {
@@ -359,6 +428,8 @@ func BlockForever() {
 
 // selectReal executes the select on the real channels (no world active) by polling ready cases through reflection-free
 // non-blocking attempts; only used by code running outside executions, which in this code base is test set-up only.
+//
+//go:norace
 func selectReal(hasDefault bool, cases []Case) int {
 	panic("mcrt: select outside a controlled execution is not supported (run this code inside mcrt.Explore)")
 }
